@@ -550,6 +550,27 @@ func (e *Engine) intrinsic(name string, fn *ssa.Function, args []Value) (Value, 
 		return nil, true
 	case "vIsSymbolic":
 		return tb.Bool(true), true
+	case "vReplace": // contract substitution: calls of the named function run the harness function instead
+		e.replaced[str(0)] = unwrapAny(args[1]).(FuncV)
+		return nil, true
+	case "vUnreplace":
+		delete(e.replaced, str(0))
+		return nil, true
+	case "vUFBool", "vUFUint":
+		s := args[1].(SliceV)
+		var ts []*Term
+		for i := 0; i < s.Len; i++ {
+			ts = append(ts, e.load(s.B.cells[s.Off+i]).(*Term))
+		}
+		if name == "vUFBool" {
+			return tb.App("h_"+sanitize(str(0)), SortBool, ts...), true
+		}
+		if e.intMode {
+			t := tb.App("h_"+sanitize(str(0)), SortInt, ts...)
+			e.addPC(e.rangeCond(t, 64, false))
+			return t, true
+		}
+		return tb.App("h_"+sanitize(str(0)), SortBV(64), ts...), true
 	case "vLin": // a*b + c < d*e + f over mathematical integers (unsigned 64-bit operands)
 		var m []*Term
 		for k := 0; k < 6; k++ {
